@@ -54,7 +54,12 @@ def run_case(ri):
     vals = base_values(size)
     alt = vals.copy()
     mask = np.arange(size) != col
-    if r['others'] == 'moved':
+    if r['others'] == 'clustered':
+        # every element within 1e-6 (relative) of the others, |x| > 1 (a tolerance test on x must not make neighbours share anything)
+        vals = 2.75 * (1.0 + 3e-7 * np.arange(size))
+        alt = vals.copy()
+        alt[mask] += 0.37
+    elif r['others'] == 'moved':
         alt[mask] += 0.37
     elif r['others'] == 'scaled':
         alt[mask] *= 1.5
